@@ -2,7 +2,7 @@ import sys,json,os
 sys.path.insert(0,'/verif')
 import vcheck, checks
 shapes=json.loads(sys.argv[1])
-keys=["k","n","e","offset","tlen","qlen","shift","tsym","qsym"]
+keys=["k","n","e","offset","tlen","qlen","shift","tsym","qsym","cut","shift2","tpl"]
 jobs=[{"pkgdir":"align/pals/filter","func":"VerifC14_Template","sched":"det","fsmodel":True,"params":dict(zip(keys,s)),"timeout_s":1200,"witnesses":2} for s in shapes]
 checks.CHECKS["C14T"]={"jobs":lambda t:jobs,"functions":[],"explanation":"","outside":""}
 rc=vcheck.run_check("C14T","quick")
